@@ -84,6 +84,8 @@ impl<'i> Handle<'i> {
 			Source::Slice(b) => Ref::Slice(b),
 			Source::Reader(r) => {
 				let r = r.rewind_and_borrow_mut();
+				#[cfg(xt_verif)]
+				crate::verif::emit("h_borrow", u64::from(r.is_source_eof()), 0, 0);
 				if r.is_source_eof() {
 					Ref::Slice(r.captured())
 				} else {
@@ -113,6 +115,8 @@ impl<'i> TryFrom<Handle<'i>> for Cow<'i, [u8]> {
 			Source::Slice(b) => Ok(Cow::Borrowed(b)),
 			Source::Reader(r) => {
 				let mut r = r.rewind_and_take();
+				#[cfg(xt_verif)]
+				crate::verif::emit("h_into_cow", u64::from(r.is_source_eof()), r.captured().len() as u64, 0);
 				r.capture_to_end()?;
 				let (cursor, _) = r.into_inner();
 				Ok(Cow::Owned(cursor.into_inner()))
@@ -138,6 +142,8 @@ impl<'i> From<Handle<'i>> for Input<'i> {
 			Source::Slice(b) => Input::Slice(Cow::Borrowed(b)),
 			Source::Reader(r) => {
 				let r = r.rewind_and_take();
+				#[cfg(xt_verif)]
+				crate::verif::emit("h_into_input", u64::from(r.is_source_eof()), r.captured().len() as u64, 0);
 				let source_eof = r.is_source_eof();
 				let (cursor, source) = r.into_inner();
 				if source_eof {
@@ -307,6 +313,8 @@ where
 	/// bytes before reading more from the source.
 	fn rewind(&mut self) {
 		self.prefix.set_position(0);
+		#[cfg(xt_verif)]
+		crate::verif::emit("cr_rewind", 0, 0, 0);
 	}
 
 	/// Captures all of the source's remaining input without modifying the
@@ -316,6 +324,10 @@ where
 			self.source.read_to_end(self.prefix.get_mut())?;
 			self.source_eof = true;
 		}
+		#[cfg(xt_verif)]
+		crate::verif::emit("cr_to_end", 0, 0, 0);
+		#[cfg(xt_verif)]
+		self.verif_emit_state();
 		Ok(())
 	}
 
@@ -328,6 +340,10 @@ where
 	fn capture_up_to_size(&mut self, size: usize) -> io::Result<()> {
 		let needed = size.saturating_sub(self.prefix.get_ref().len());
 		if needed == 0 {
+			#[cfg(xt_verif)]
+			crate::verif::emit("cr_prefix", size as u64, 0, 0);
+			#[cfg(xt_verif)]
+			self.verif_emit_state();
 			return Ok(());
 		}
 
@@ -336,6 +352,10 @@ where
 		if take.limit() > 0 {
 			self.source_eof = true;
 		}
+		#[cfg(xt_verif)]
+		crate::verif::emit("cr_prefix", size as u64, needed as u64, 0);
+		#[cfg(xt_verif)]
+		self.verif_emit_state();
 		Ok(())
 	}
 
@@ -348,6 +368,18 @@ where
 	/// source.
 	fn into_inner(self) -> (Cursor<Vec<u8>>, R) {
 		(self.prefix, self.source)
+	}
+
+	/// Reports the projection of the reader to the event sink (verification only).
+	#[cfg(xt_verif)]
+	fn verif_emit_state(&self) {
+		let st = self.verif_project();
+		crate::verif::emit(
+			"cr_state",
+			st.captured_len as u64,
+			st.cursor as u64,
+			u64::from(st.source_eof),
+		);
 	}
 
 	/// Returns the observable projection of the reader (verification only).
@@ -371,6 +403,10 @@ where
 		let prefix_size = std::cmp::min(buf.len(), self.captured_unread_size());
 		self.prefix.read_exact(&mut buf[..prefix_size])?;
 		if self.captured_unread_size() > 0 || prefix_size == buf.len() {
+			#[cfg(xt_verif)]
+			crate::verif::emit("cr_read", buf.len() as u64, prefix_size as u64, u64::MAX);
+			#[cfg(xt_verif)]
+			self.verif_emit_state();
 			return Ok(prefix_size);
 		}
 
@@ -396,6 +432,10 @@ where
 		// a 0 byte read can only indicate EOF.
 		self.source_eof = source_size == 0;
 
+		#[cfg(xt_verif)]
+		crate::verif::emit("cr_read", (prefix_size + buf.len()) as u64, prefix_size as u64, source_size as u64);
+		#[cfg(xt_verif)]
+		self.verif_emit_state();
 		Ok(prefix_size + source_size)
 	}
 }
